@@ -161,6 +161,13 @@ def ref_oracle(case, obs):
         exp[g] = sqfast.fmt_value(it.globals[g]) if g in it.globals else 'undef'
     if case.get('has_val'):
         exp['val'] = sqfast.fmt_value(case['ref_val'])
+    if it.handled > 0:
+        # errors that a handler took over were logged, but nothing was reported as an unhandled failure
+        del exp['err']
+        codes = [c for c in (obs.get('err') or '').split(',') if c]
+        if not codes or '60001' in codes:
+            return {'field': 'err', 'expected': 'the diagnostics of %d handled error(s), no stack trace of an unhandled one' % it.handled,
+                    'implementation': obs.get('err')}
     for k, v in exp.items():
         if canon(obs.get(k)) != v:
             return {'field': k, 'expected': v, 'implementation': obs.get(k)}
